@@ -67,13 +67,14 @@ def Broker.submit (b : Broker) (orc : Oracle) (o : Ord) (inAuction : Bool) : Bro
     else (b1, evs)
 
 /-- `cancel_order(order)`: nothing happens for an order that is already final (repaired: finding F23); otherwise
-PENDING_CANCEL, the order is marked cancelled, CANCELLATION_PASS, and it is removed from the REGULAR book only -/
+PENDING_CANCEL, the order is marked cancelled, CANCELLATION_PASS, and it is removed from BOTH books (repaired: finding F4 —
+the original code removed it from the regular book only) -/
 def Broker.cancel (b : Broker) (o : Ord) : Broker × List OEvent :=
   if o.isFinal then (b, [])
   else
     let upd := fun (x : Ord) => if x.id == o.id then x.markCancelled else x
     ({ b with openOrders := (b.openOrders.map upd).filter (fun x => x.id != o.id),
-              auctionOrders := b.auctionOrders.map upd },
+              auctionOrders := (b.auctionOrders.map upd).filter (fun x => x.id != o.id) },
      [.pendingCancel o.id, .cancellationPass o.id])
 
 /-- `after_trading`: everything still in the regular book is rejected and announced; the book is emptied -/
